@@ -39,7 +39,7 @@ package jet
 //@   trusted io library
 //@   nopanic
 
-//@ pred SetOK(s *Set) := s != nil && s.loader != nil && s.cache != nil && len(s.extensions) > 0 && forall(i, 0, len(s.extensions), GoodExt(s.extensions[i]))
+//@ pred SetOK(s *Set) := s != nil && s.loader != nil && s.cache != nil && len(s.extensions) > 0 && forall(i, 0, len(s.extensions), GoodExt(s.extensions[i])) && GoodLeft(s.leftDelim) && GoodRight(s.rightDelim) && GoodLeft(s.leftComment)
 
 //@ func (*Set).GetTemplate
 //@   props C15 C16
@@ -101,13 +101,35 @@ package jet
 //@   callsite (io.ReadCloser).Close count 1
 
 //@ func (*Set).parse
-//@   props C15 C16 C08
-//@   trusted verified with the parser contracts (C02); here only its interface towards the Set
+//@   props C15 C16 C08 C02
 //@   requires [set-ok] SetOK(s)
 //@   requires [canonical-name] Canon(name)
 //@   modifies ghost CM, ghost NL
 //@   nopanic
+//@   loop 0 invariant t != nil && -1 <= rangeindex && rangeindex < len(t.imports) && fresh(t) && (t.processedBlocks == nil || fresh(t.processedBlocks)) && visits("(*Template).addBlocks", 1) == rangeindex + 1
 //@   ensures err == nil ==> t != nil && t.Name == name
+//@   callsite (*Template).addBlocks 0 requires [extended-chain-has-lowest-precedence] {C08} blocks == caller.t.extends.processedBlocks && ncalls("(*Template).addBlocks") == 0
+//@   callsite (*Template).addBlocks 1 requires [imports-in-order-override-the-extended-chain] {C08} blocks == caller.t.imports[caller.rangeindex + 1].processedBlocks
+//@   callsite (*Template).addBlocks 2 requires [own-blocks-have-highest-precedence] {C08} blocks == caller.t.passedBlocks && visits("(*Template).addBlocks", 1) == len(caller.t.imports)
+//@   callsite (*Template).parseTemplate 0 requires [references-inherit-the-caching-flag] {C16} cacheAfterParsing == caller.cacheAfterParsing
+//@   callsite (*Template).parseTemplate count 1
+
+//@ func (*Template).recover
+//@   props C02
+//@   inline
+//@ func (*Template).startParse
+//@   inline
+//@ func (*Template).stopParse
+//@   inline
+
+//@ func (*Template).addBlocks
+//@   props C08 C11
+//@   requires t != nil
+//@   modifies t.processedBlocks, map t.processedBlocks
+//@   nopanic
+//@   loop 0 invariant t.processedBlocks != nil && ite(old(t.processedBlocks) == nil, fresh(t.processedBlocks), t.processedBlocks == old(t.processedBlocks))
+//@   ensures [block-table-is-never-shared-between-templates] len(blocks) > 0 && old(t.processedBlocks) == nil ==> fresh(t.processedBlocks)
+//@   ensures [block-table-keeps-its-identity] t.processedBlocks == old(t.processedBlocks) || (old(t.processedBlocks) == nil && fresh(t.processedBlocks))
 
 //@ func (*Set).Parse
 //@   props C15 C16
